@@ -173,7 +173,7 @@ def finish(prop, tier, seed, results, crashed, wall, no_evidence=False, partial=
             "functions_encoded": covered,
             "bounds": bounds.get(tier, bounds) if isinstance(bounds, dict) else bounds,
             "stubs_and_shims": stubs,
-            "units": [{"unit": r["unit"], "paths": r["paths"], "reachable_paths": r["reachable_paths"], "aborted": r["aborted"],
+            "units": [{"unit": r["unit"], "paths": r["paths"], "reachable_paths": r["reachable_paths"], "reachable_paths_noaxioms": r.get("reachable_paths_noaxioms", 0), "aborted": r["aborted"],
                        "obligations": r["obligations"], "unsat": r["unsat"], "sat": r["sat"], "unknown": r["unknown"],
                        "wall_s": r["wall_s"], "solver_s": r["solver"].get("solver_s"), "queries": r["solver"].get("queries")}
                       for r in results],
